@@ -25,8 +25,16 @@ def WP.text : WP → Bytes
   | .lit ds => ds
   | .star => [42]
 
-def Spec.render (sp : Spec) : Bytes :=
-  37 :: sp.flags ++ sp.width.text ++ (match sp.prec with | .absent => [] | p => 46 :: p.text) ++ [sp.verb]
+/-- the precision as written: nothing, or `.` followed by the digits / `*` -/
+def precText : WP → Bytes
+  | .absent => []
+  | .lit ds => 46 :: ds
+  | .star => [46, 42]
+
+/-- everything between `%` and the verb -/
+def Spec.body (sp : Spec) : Bytes := sp.flags ++ (sp.width.text ++ precText sp.prec)
+
+def Spec.render (sp : Spec) : Bytes := 37 :: (sp.body ++ [sp.verb])
 
 /-- the grammar of C conversion specifications: flags from `-+ #0`; a literal width is a non-empty digit string not starting
 with `0` (a leading `0` is the flag); a literal precision is any digit string -/
@@ -39,10 +47,11 @@ def Spec.wellFormed (sp : Spec) : Bool :=
    | .lit ds => ds.all isDigit
    | _ => true)
 
-/-- C: a negative `*` width is a `-` flag and a positive width; a negative `*` precision is as if omitted -/
+/-- C: a negative `*` width is a `-` flag and a positive width (and `0` is ignored once `-` is there, so it is dropped);
+a negative `*` precision is as if omitted -/
 def resolveSpec (fl : Flags) (w p : Option Int) (verb : UInt8) : CSpec :=
   let fl' : Flags := match w with
-    | some w => if w < 0 then { fl with minus := true } else fl
+    | some w => if w < 0 then { fl with minus := true, zero := false } else fl
     | none => fl
   let w' : Option Nat := w.map Int.natAbs
   let p' : Option Nat := match p with
@@ -54,28 +63,75 @@ def resolveSpec (fl : Flags) (w p : Option Int) (verb : UInt8) : CSpec :=
 def Spec.stars (sp : Spec) : Nat :=
   (if sp.width = .star then 1 else 0) + (if sp.prec = .star then 1 else 0)
 
-/-- C `printf` of one conversion specification: `*` arguments are taken as `int` (the AWK number truncated), then the value -/
-def cPrintf (dg : DigitGen) (chars : Bool) (sp : Spec) (args : List Arg) : Option Bytes :=
-  let takeInt (w : WP) (args : List Arg) : Option (Option Int × List Arg) :=
-    match w with
-    | .absent => some (none, args)
-    | .lit ds => some (some (numVal ds : Int), args)
-    | .star =>
-      match args with
-      | a :: rest => some (some (toInt64 a.n), rest)
-      | [] => none
-  match takeInt sp.width args with
+/-- a width or precision of C `printf`: a literal, or the next argument taken as `int` (the AWK number truncated) -/
+def cTakeInt (w : WP) (args : List Arg) : Option (Option Int × List Arg) :=
+  match w with
+  | .absent => some (none, args)
+  | .lit ds => some (some (numVal ds : Int), args)
+  | .star =>
+    match args with
+    | a :: rest => some (some (toInt64 a.n), rest)
+    | [] => none
+
+/-- C `printf` of one conversion specification against an argument list: `*` arguments first, then the value; returns the text
+and the arguments that are left -/
+def cConv (dg : DigitGen) (chars : Bool) (sp : Spec) (args : List Arg) : Option (Bytes × List Arg) :=
+  match cTakeInt sp.width args with
   | none => none
   | some (w, args1) =>
-    match takeInt sp.prec args1 with
+    match cTakeInt sp.prec args1 with
     | none => none
     | some (p, args2) =>
       match args2 with
-      | [a] =>
+      | a :: rest =>
         let cs := resolveSpec (goFlags sp.flags) w p sp.verb
         match awkConvert chars sp.verb a with
-        | some ca => cFormat dg cs ca
+        | some ca => (cFormat dg cs ca).map (·, rest)
         | none => none
-      | _ => none
+      | [] => none
+
+/-- … applied to exactly its own arguments -/
+def cPrintf (dg : DigitGen) (chars : Bool) (sp : Spec) (args : List Arg) : Option Bytes :=
+  match cConv dg chars sp args with
+  | some (o, []) => some o
+  | _ => none
+
+/-! ## whole format strings -/
+
+/-- a format string as a list of segments -/
+inductive Seg
+  | lit (b : Bytes)      -- literal text (no `%`)
+  | pct                  -- `%%`
+  | conv (sp : Spec)
+deriving DecidableEq, Repr
+
+def Seg.render : Seg → Bytes
+  | .lit b => b
+  | .pct => [37, 37]
+  | .conv sp => sp.render
+
+def renderSegs : List Seg → Bytes
+  | [] => []
+  | s :: r => s.render ++ renderSegs r
+
+/-- number of arguments a segment consumes -/
+def Seg.need : Seg → Nat
+  | .conv sp => sp.stars + 1
+  | _ => 0
+
+def needSegs : List Seg → Nat
+  | [] => 0
+  | s :: r => s.need + needSegs r
+
+/-- C `printf` of a whole format: literal text, `%` for `%%`, and each conversion applied to the arguments not yet consumed,
+in order (surplus arguments are ignored) -/
+def cSegs (dg : DigitGen) (chars : Bool) : List Seg → List Arg → Option Bytes
+  | [], _ => some []
+  | .lit b :: r, args => (cSegs dg chars r args).map (b ++ ·)
+  | .pct :: r, args => (cSegs dg chars r args).map (37 :: ·)
+  | .conv sp :: r, args =>
+    match cConv dg chars sp args with
+    | some (o, rest) => (cSegs dg chars r rest).map (o ++ ·)
+    | none => none
 
 end GoawkModel.C09
